@@ -281,6 +281,11 @@ def main(tier: str) -> int:
     paths = tlc.edge_cover(graph, max_len=40)
     run.notes['graph'] = {'nodes': len(graph.nodes), 'edges': graph.n_edges,
                           'cover_paths': len(paths)}
+    if tier == 'quick':
+        # the full edge cover (every edge of the graph) runs in the thorough tier;
+        # quick replays a seeded third of its paths
+        rng.shuffle(paths)
+        paths = paths[:12000]
     covered = set()
     for init, path in paths:
         lr, drift = replay_path(loop, graph, init, path)
@@ -342,7 +347,7 @@ def main(tier: str) -> int:
                                   'event': impl_traces[i - 1][r2]})
     for m in meta[:2] + meta[-1:]:
         run.sample(m)
-    run.cov['exhaustive'] = True
+    run.cov['exhaustive'] = tier == 'thorough'
     run.notes['exhaustive_scope'] = ('RWLock.tla: 3 tasks, every program over {r,w} of '
                                      'length <= 2 per task, one cancellation at any step; '
                                      'every edge of that graph replayed on the real lock')
